@@ -1,7 +1,13 @@
 import json, os, sys
 sys.path.insert(0, os.path.dirname(os.path.abspath(__file__)))
-from claims import CLAIMS, ALL, PENDING
 from lib.common import VERIF
+ALL = ["C%02d" % i for i in range(1, 27)]
+CLAIMS, NA = {}, {}
+for fn in sorted(os.listdir(os.path.join(VERIF, "harness", "claims"))):
+    if fn.endswith(".json"):
+        d = json.load(open(os.path.join(VERIF, "harness", "claims", fn)))
+        (NA if d.get("not_applicable") else CLAIMS)[fn[:-5]] = d
+PENDING = "check not built yet (work in progress; see DESIGN.md section 7)"
 
 m = {
     "version": 1,
@@ -28,6 +34,6 @@ for p in ALL:
             "level_claimed": {"category": "proof", "text": c["text"], "design_ref": c["design"]},
             "level_note": c["note"], "technique": c["technique"]})
     else:
-        m["not_applicable"].append({"property_id": p, "reason": PENDING})
+        m["not_applicable"].append({"property_id": p, "reason": NA.get(p, {}).get("reason", PENDING)})
 json.dump(m, open(os.path.join(VERIF, "MANIFEST.json"), "w"), indent=1)
 print("MANIFEST.json: %d checks, %d not claimed" % (len(m["checks"]), len(m["not_applicable"])))
